@@ -68,6 +68,12 @@ type Env struct {
 
 func (e *Env) Thorough() bool { return e.Tier == "thorough" }
 
+// Current records the case about to run, so that a crash of the harness process (a panic inside
+// an engine goroutine cannot be recovered) is attributed to a concrete input by ./check.
+func (e *Env) Current(c string) {
+	os.WriteFile(filepath.Join(e.Out, "current_case.txt"), []byte(c), 0o644)
+}
+
 func (e *Env) WriteReport(r *Report) {
 	r.Tier, r.Seed = e.Tier, e.Seed
 	if r.Violations == nil {
